@@ -398,38 +398,28 @@ impl Suites {
 
 /// all semirings on one pointer + Boolean evaluation of every assignment
 pub fn check_all<'a, P: DDNNFPtr<'a>>(p: P, f: TT, n: usize, s: &Suites, evals: &mut u64) -> Option<String> {
-    if let Some(e) = check_ptr(p, f, n, &s.real, evals) {
-        return Some(e);
-    }
-    if let Some(e) = check_ptr(p, f, n, &s.f7, evals) {
-        return Some(e);
-    }
-    if let Some(e) = check_ptr(p, f, n, &s.ftiny, evals) {
-        return Some(e);
-    }
-    if let Some(e) = check_ptr(p, f, n, &s.f64_, evals) {
-        return Some(e);
-    }
-    if let Some(e) = check_ptr(p, f, n, &s.f128, evals) {
-        return Some(e);
-    }
-    if let Some(e) = check_ptr(p, f, n, &s.fm127, evals) {
-        return Some(e);
-    }
-    if let Some(e) = check_ptr(p, f, n, &s.boolean, evals) {
-        return Some(e);
-    }
-    if let Some(e) = check_ptr(p, f, n, &s.eu, evals) {
-        return Some(e);
-    }
-    if let Some(e) = check_ptr(p, f, n, &s.cx, evals) {
-        return Some(e);
-    }
-    if let Some(e) = check_ptr(p, f, n, &s.rat, evals) {
-        return Some(e);
-    }
-    if let Some(e) = check_ptr(p, f, n, &s.poly, evals) {
-        return Some(e);
+    // the semirings are visited in an order that rotates with the function, so that the last
+    // count on one diagram and the first on the next (which shares nodes with it inside the
+    // long-lived builder) are of the same semiring as often as not
+    let rot = (f as usize) % 11;
+    for k in 0..11 {
+        let r = match (k + rot) % 11 {
+            0 => check_ptr(p, f, n, &s.real, evals),
+            1 => check_ptr(p, f, n, &s.f7, evals),
+            2 => check_ptr(p, f, n, &s.ftiny, evals),
+            3 => check_ptr(p, f, n, &s.f64_, evals),
+            4 => check_ptr(p, f, n, &s.f128, evals),
+            5 => check_ptr(p, f, n, &s.fm127, evals),
+            6 => check_ptr(p, f, n, &s.boolean, evals),
+            7 => check_ptr(p, f, n, &s.eu, evals),
+            8 => check_ptr(p, f, n, &s.cx, evals),
+            9 => check_ptr(p, f, n, &s.rat, evals),
+            10 => check_ptr(p, f, n, &s.poly, evals),
+            _ => None,
+        };
+        if let Some(e) = r {
+            return Some(e);
+        }
     }
     for a in 0..(1usize << n) {
         *evals += 1;
